@@ -151,6 +151,9 @@ def build_call(world, op, results):
                 kw[k_arg] = op[k_json]
         if 'score' in op and type(f).__name__ == 'OverlapFilter':
             kw['out_sim_score'] = op['score']
+        if op.get('same_out_object') and 'l_out_attrs' in kw and \
+                kw.get('l_out_attrs') == kw.get('r_out_attrs'):
+            kw['r_out_attrs'] = kw['l_out_attrs']     # the very same list
         kw.update(nj)
         return f.filter_tables, kw
     if kind == 'filter_candset':
@@ -221,6 +224,19 @@ def run_call(world, op, call_idx, plan, fault, results, cpus):
         fn, kw = build_call(world, op, results)
     except HarnessError:
         raise
+    # the library gets its own list objects for the output attributes (one
+    # shared object if the caller passes the same list twice): whatever it does
+    # to them cannot leak into the case document the model reads
+    shared = kw.get('l_out_attrs') is not None and \
+        kw.get('l_out_attrs') is kw.get('r_out_attrs')
+    for k in ('l_out_attrs', 'r_out_attrs', 'profile_attrs'):
+        if isinstance(kw.get(k), list):
+            kw[k] = list(kw[k])
+    if shared:
+        kw['r_out_attrs'] = kw['l_out_attrs']
+    out.passed_lists = dict((k, (kw[k], list(kw[k]))) for k in
+                            ('l_out_attrs', 'r_out_attrs', 'profile_attrs')
+                            if isinstance(kw.get(k), list))
     ENV.begin_call(call_idx, plan, fault, cpus)
     ENV.log('call_begin', op['op'])
     try:
@@ -1337,7 +1353,16 @@ def run_variant(case, world, idx, op, out, var, results, rep, cpus):
     plan = var.get('plan', op.get('plan'))
     cp = var.get('cpus', cpus)
     same_objects = False
-    if what == 'n_jobs':
+    if what == 'copy_right':
+        if op.get('l') != op.get('r') or not isinstance(op.get('r'), str):
+            return []
+        c2 = dict(case)
+        c2['tables'] = dict(case['tables'])
+        cname = op['r'] + '__copy'
+        c2['tables'][cname] = copy.deepcopy(case['tables'][op['r']])
+        op2['r'] = cname
+        w2 = fresh_world(c2, idx)
+    elif what == 'n_jobs':
         op2['n_jobs'] = var['n_jobs']
         w2 = fresh_world(case, idx)
     elif what == 'repeat':
